@@ -26,6 +26,21 @@ def build_binary():
     return _built["bin"]
 
 
+def _jsons(text):
+    """decode a stream of concatenated (pretty-printed) JSON values"""
+    dec, pos, out = json.JSONDecoder(), 0, []
+    while True:
+        while pos < len(text) and text[pos].isspace():
+            pos += 1
+        if pos >= len(text):
+            return out
+        try:
+            obj, pos = dec.raw_decode(text, pos)
+        except Exception:
+            return out
+        out.append(obj)
+
+
 def run_witness(binpath, w):
     """Run one witness.  Returns dict(observed..., reproduced: bool)."""
     kind = w["kind"]
@@ -287,6 +302,14 @@ def run_witness(binpath, w):
             return {"cmd": "check --fix <%d programs>" % len(progs), "exit": 0, "stdout": "", "stderr": "",
                     "reproduced": bool(bad_items), "why": "; ".join(bad_items[:4])[:1800], "n_inputs": len(progs),
                     "failing_inputs": [progs[int(re.match(r"program (\d+)", b).group(1))] for b in bad_items][:6]}
+        elif kind == "lsp":
+            # a list of LSP messages replayed through `garden reftest-lsp`
+            f = os.path.join(tmpdir, "s.jsonl")
+            with open(f, "w", encoding="utf-8") as fh:
+                for req in w["input"]:
+                    fh.write(json.dumps(req) + "\n")
+            cmd = [binpath, "reftest-lsp", f]
+            stdin = None
         elif kind == "json-session":
             f = os.path.join(tmpdir, "s.jsonl")
             with open(f, "w", encoding="utf-8") as fh:
@@ -304,6 +327,7 @@ def run_witness(binpath, w):
             rc, out, err = "timeout", (e.stdout or b"").decode("utf-8", "replace") if isinstance(e.stdout, bytes) else (e.stdout or ""), ""
     finally:
         subprocess.run(["rm", "-rf", tmpdir])
+    full_out = out
     obs = {"cmd": " ".join(cmd[1:]) if cmd else "", "exit": rc, "stdout": out[-1500:], "stderr": err[-1500:]}
     exp = w.get("expect", {})
     bad = False
@@ -332,7 +356,7 @@ def run_witness(binpath, w):
         why.append("output contains %r" % exp["stderr_not_contains"])
     if "py" in exp:
         # custom oracle: python expression over rc,out,err returning reason string or ''
-        r = eval(exp["py"], {"rc": rc, "out": out, "err": err, "json": json, "re": re})
+        r = eval(exp["py"], {"rc": rc, "out": out, "err": err, "json": json, "re": re, "jsons": _jsons, "full_out": full_out})
         if r:
             bad = True
             why.append(str(r))
